@@ -317,6 +317,8 @@ pub const HAZARD_FINDINGS: &[(&str, &[&str])] = &[
     ("resort_after_take", &["C03-take-sort-take-merged"]),
     ("sort_by_windowed", &["C07-sort-by-windowed-scope"]),
     ("take_far_from_sort", &["C07-sort-column-pruned-before-take"]),
+    ("sorted_aggregate", &["C04-stale-sort-after-aggregate"]),
+    ("multi_take_agg", &["C07-sort-column-pruned-before-take"]),
     ("wild_let", &["C07-wildcard-let-derive-name"]),
     ("const_fold", &["C05-same-column-merged", "C02-const-null-fold"]),
     ("dropped_key_join", &["C03-dropped-sort-key-join"]),
